@@ -82,11 +82,30 @@ def run(tier, report):
     report.coverage['rule'] = ('BFS over multi-handle histories; canonical state = on-disk state + per handle (current pack id, '
                                'session state, keys visible in the pinned snapshot); queries are transitions judged individually')
     explore(spec, report)
+    if not report.violations:
+        # second pass: internal IN-batch size lowered to 1 so that the fallback re-query runs over several chunks; two loose
+        # objects exist at the root, the reader (handle 1) pins, the packer packs+cleans, the reader asks in bulk
+        from ..report import Report
+        spec2 = Spec(tier)
+        spec2.thresholds = (1, 9500)
+        spec2.depth = 3 if tier == 'quick' else 4
+        spec2.max_variants = 2
+        spec2.roots = lambda: [('two-loose', {'pack_size_target': 30}, [('on', 0, ('add', 0)), ('on', 0, ('add', 1))])]
+        sub = Report('C08', tier, LEVEL)
+        explore(spec2, sub)
+        report.violations += sub.violations
+        for k in ('states', 'transitions', 'traces_validated_against_impl', 'states_checked'):
+            report.coverage[k] += sub.coverage[k]
+        report.coverage['per_root'].update(sub.coverage['per_root'])
+        report.coverage['exhaustive'] = report.coverage['exhaustive'] and sub.coverage['exhaustive']
 
 
 def replay(case):
     from ..seqx import replay_history
     spec = Spec('thorough')
+    if case.get('root') == 'two-loose':
+        spec.thresholds = (1, 9500)
+        spec.roots = lambda: [('two-loose', {'pack_size_target': 30}, [('on', 0, ('add', 0)), ('on', 0, ('add', 1))])]
     spec.nhandles = max([o[1] for o in case['history'] if o[0] == 'on'] + [1]) + 1
     if case.get('spec_nhandles'):
         spec.nhandles = case['spec_nhandles']
